@@ -185,6 +185,11 @@ def shrink(ctx, binp, case, kind, budget_s=40):
 def check(ctx):
     V.check_properties_file(ctx, "Properties_%s.v" % ctx.prop)
     run(ctx)
+    if ctx.prop == "C15":
+        # static tie of the model's clock_ok hypothesis (readings are consumed in lock order) to the code: every time.Now /
+        # time.Since of a FileSink method happens while FileSink.l is held (obligation over the file regenerated from the source)
+        import eng_locks
+        eng_locks.clock_under_lock_obligation(ctx)
     ctx.assumptions += ASSUMPTIONS
 
 
